@@ -227,6 +227,8 @@ def neg_pushed(e):
 
 
 def neg_deep(e):
+    if isinstance(e, ast.IfExp):
+        return L(ast.IfExp(test=copy.deepcopy(e.test), body=neg_deep(e.body), orelse=neg_deep(e.orelse)), e)
     if isinstance(e, ast.BoolOp):
         dual = ast.Or() if isinstance(e.op, ast.And) else ast.And()
         return L(ast.BoolOp(op=dual, values=[neg_deep(v) for v in e.values]), e)
@@ -667,6 +669,10 @@ def candidates(fn, stored_attrs=frozenset()) -> List[Cand]:
                 def f(parent=parent, field=field, idx=idx, e=e):
                     _set(parent, field, idx, neg_pushed(e.operand))
                 out.append(("not-push", f))
+        if isinstance(e, ast.UnaryOp) and isinstance(e.op, ast.Not) and isinstance(e.operand, (ast.IfExp, ast.BoolOp)):
+            def f(parent=parent, field=field, idx=idx, e=e):
+                _set(parent, field, idx, neg_deep(e.operand))
+            out.append(("not-push-deep", f))
         if isinstance(e, ast.BoolOp) and all(isinstance(v, ast.UnaryOp) and isinstance(v.op, ast.Not) or (isinstance(v, ast.Compare) and len(v.ops) == 1 and type(v.ops[0]) in OPP) for v in e.values) \
                 and any(isinstance(v, ast.UnaryOp) for v in e.values):
             def f(parent=parent, field=field, idx=idx, e=e):
@@ -1594,7 +1600,7 @@ def _unmatched_stmt_ids(fn, ref_fps):
 DUPLICATING = {"push-tail", "unhoist", "if-split", "and-else-out", "ifexp-callee-out", "expand-local"}
 
 
-def direct_function(fn, ref_fps: List[str], known_names: set, stored_attrs, normalise: Callable, budget: int = 400) -> int:
+def direct_function(fn, ref_fps: List[str], known_names: set, stored_attrs, normalise: Callable, budget: int = 1500) -> int:
     """best-first search over the semantics-preserving rewrites. A state is better when MORE of its statements are spelled like
     the reference (fewer statements alone is not progress: the function would end in a third spelling nobody wrote). States
     that are not better are explored up to three rewrites deep, because some spellings are two or three rewrites apart.
@@ -1952,6 +1958,48 @@ def candidates2(fn, stored_attrs) -> List[Cand]:
                             st.body.extend(nxt.body)
                         del stmts[i + 1]
                     out.append(("if-merge", f))
+            # zip-branches: `if c: S1a; S2a else: S1b; S2b` with statements of the same kind pairwise (c pure and stable)
+            #   -> `S1[a if c else b]; S2[a if c else b]`  (assignments to the same target, guards with the same body, returns)
+            if isinstance(st, ast.If) and st.orelse and len(st.body) == len(st.orelse) and pure(st.test) and not (len(st.orelse) == 1 and isinstance(st.orelse[0], ast.If)) and len(st.body) >= 2:
+                merged = []
+                tn = {n.id for n in ast.walk(st.test) if isinstance(n, ast.Name)}
+                okz = True
+                for a_, b_ in zip(st.body, st.orelse):
+                    ie = lambda x, y: L(ast.IfExp(test=copy.deepcopy(st.test), body=x, orelse=y), a_)
+                    if ast.dump(a_) == ast.dump(b_) and not isinstance(a_, EXIT):
+                        merged.append(a_)
+                    elif isinstance(a_, ast.Assign) and isinstance(b_, ast.Assign) and [ast.dump(t) for t in a_.targets] == [ast.dump(t) for t in b_.targets] and len(a_.targets) == 1 and isinstance(a_.targets[0], ast.Name) and a_.targets[0].id not in tn:
+                        merged.append(L(ast.Assign(targets=a_.targets, value=ie(a_.value, b_.value)), a_))
+                    elif isinstance(a_, ast.If) and isinstance(b_, ast.If) and not a_.orelse and not b_.orelse and [ast.dump(x) for x in a_.body] == [ast.dump(x) for x in b_.body] and exits(a_.body):
+                        merged.append(L(ast.If(test=ie(a_.test, b_.test), body=a_.body, orelse=[]), a_))
+                    elif isinstance(a_, ast.Return) and isinstance(b_, ast.Return) and a_.value is not None and b_.value is not None:
+                        merged.append(L(ast.Return(value=ie(a_.value, b_.value)), a_))
+                    else:
+                        okz = False
+                        break
+                    if any(isinstance(n, ast.Attribute) and isinstance(n.ctx, ast.Store) for n in ast.walk(a_)) or any(isinstance(n, ast.Attribute) and isinstance(n.ctx, ast.Store) for n in ast.walk(b_)):
+                        okz = False
+                        break
+                if okz:
+                    def f(stmts=stmts, i=i, st=st, merged=merged):
+                        stmts[i:i + 1] = merged
+                    out.append(("zip-branches", f))
+            # flag through try: `try: f = E except T: f = False` + `if f: <simple exit>`  ->  `try: if E: <simple exit> except T: pass`
+            if isinstance(st, ast.Try) and len(st.body) == 1 and len(st.handlers) == 1 and not st.orelse and not st.finalbody and rest and isinstance(rest[0], ast.If) and not rest[0].orelse \
+                    and isinstance(st.body[0], ast.Assign) and len(st.body[0].targets) == 1 and isinstance(st.body[0].targets[0], ast.Name) \
+                    and len(st.handlers[0].body) == 1 and isinstance(st.handlers[0].body[0], ast.Assign) and len(st.handlers[0].body[0].targets) == 1 \
+                    and isinstance(st.handlers[0].body[0].targets[0], ast.Name) and st.handlers[0].body[0].targets[0].id == st.body[0].targets[0].id \
+                    and isinstance(st.handlers[0].body[0].value, ast.Constant) and st.handlers[0].body[0].value.value is False \
+                    and isinstance(rest[0].test, ast.Name) and rest[0].test.id == st.body[0].targets[0].id:
+                flag = st.body[0].targets[0].id
+                simple = len(rest[0].body) == 1 and isinstance(rest[0].body[0], (ast.Return, ast.Continue, ast.Break)) and (
+                    not isinstance(rest[0].body[0], ast.Return) or rest[0].body[0].value is None or isinstance(rest[0].body[0].value, (ast.Constant, ast.Name)))
+                if simple and sum(1 for n in own_walk(fn) if isinstance(n, ast.Name) and n.id == flag) == 3:
+                    def f(stmts=stmts, i=i, st=st, nxt=rest[0]):
+                        st.body = [L(ast.If(test=st.body[0].value, body=nxt.body, orelse=[]), nxt)]
+                        st.handlers[0].body = [L(ast.Pass(), st.handlers[0])]
+                        del stmts[i + 1]
+                    out.append(("try-flag-in", f))
             # `x = A if c else x`  <->  `if c: x = A`
             if isinstance(st, ast.Assign) and len(st.targets) == 1 and isinstance(st.targets[0], ast.Name) and isinstance(st.value, ast.IfExp):
                 x = st.targets[0].id
